@@ -94,7 +94,7 @@ class Run(AppsRun):
             self.count('rounds_not_settled')
             return
         asker = rng.choice([i.nick for i in w.live()])
-        strategy = rng.choice(gen.STARTING)
+        strategy = rng.choice(self.knobs.get('strategies') or gen.STARTING)
         if mode == 'application':
             method, args = 'test_start_application', (strategy, app)
             real, real_args = 'start_application', (strategy, app, False)
